@@ -996,10 +996,123 @@ pub fn cmd_claimleak(_args: &HashMap<String, String>) -> i32 {
     0
 }
 
+/// F20: a writer inserts a tree that reuses a node of tree 1, which it holds locked; a pruner's
+/// DereferenceTree(1) is committed between the writer's read of the tree registry (used_trees) and the
+/// queuing of its commit.  Schedule of the MultiTree.tla counterexample with a two-step commit.
+fn scenario_f20(u: &Univ) -> (bool, Vec<String>) {
+    use crate::workers::Gate;
+    let root = scratch_root();
+    let dir = fresh_dir(&root, "mtsc20");
+    let db = Arc::new(Db::open_or_create(&mt_options(&dir, &u.v, false)).expect("open"));
+    let mut viol: Vec<String> = Vec::new();
+    let leaf = |id: u64| NodeRef::New(NewNode { data: u.node_data(id), children: vec![] });
+    // T1 = root -> node 1 -> node 2
+    db.commit_changes(vec![(0u8, Operation::InsertTree(u.tkey(1), NewNode { data: u.root_data(1),
+        children: vec![NodeRef::New(NewNode { data: u.node_data(1), children: vec![leaf(2)] })] }))]).expect("commit T1");
+    db.process_commits().expect("process");
+    // the writer locks T1 and reads the address of node 1
+    let h = match ReaderHandle::lock(db.clone(), u.tkey(1)) {
+        Some(h) => h,
+        None => return (false, vec!["harness: tree 1 absent".into()]),
+    };
+    let addr = match h.root() {
+        Ok(Some((_, ch))) if ch.len() == 1 => ch[0],
+        _ => return (false, vec!["harness: tree 1 unreadable".into()]),
+    };
+    // writer thread: InsertTree(T2 -> existing node 1, new leaf 3), held right after its used_trees read
+    let gate = Gate::new();
+    let g2 = gate.clone();
+    let me = std::thread::current().id();
+    parity_db::verif::set_sink(Some(Arc::new(move |n: &'static str, _a: &[u64]| {
+        if n == "UsedTrees" && std::thread::current().id() != me {
+            g2.pass();
+        }
+    })));
+    let dbw = db.clone();
+    let (k2, d2, l3) = (u.tkey(2), u.root_data(2), u.node_data(3));
+    let writer = std::thread::spawn(move || {
+        catch(|| dbw.commit_changes(vec![(0u8, Operation::InsertTree(k2, NewNode { data: d2,
+            children: vec![NodeRef::Existing(addr), NodeRef::New(NewNode { data: l3, children: vec![] })] }))]))
+    });
+    let reached = gate.wait_reached(20);
+    // pruner: DereferenceTree(T1) is committed now.  When the registry is read under the queue lock the
+    // pruner's commit waits for the writer's: the gate is then opened first.
+    let dbp = db.clone();
+    let k1 = u.tkey(1);
+    let (ptx, prx) = channel();
+    std::thread::spawn(move || {
+        let r = catch(|| dbp.commit_changes(vec![(0u8, Operation::DereferenceTree(k1))]));
+        let _ = ptx.send(r);
+    });
+    let mut pres = prx.recv_timeout(std::time::Duration::from_millis(1500)).ok();
+    gate.open();
+    if pres.is_none() {
+        pres = prx.recv_timeout(std::time::Duration::from_secs(20)).ok();
+    }
+    match pres {
+        Some(Ok(Ok(()))) => {},
+        Some(Ok(Err(e))) => viol.push(format!("dereference of tree 1 failed: {e}")),
+        Some(Err(p)) => viol.push(format!("dereference of tree 1 panicked: {p}")),
+        None => viol.push("the pruner's commit did not return".into()),
+    }
+    match writer.join() {
+        Ok(Ok(Ok(()))) => {},
+        Ok(Ok(Err(e))) => viol.push(format!("commit of tree 2 failed: {e}")),
+        Ok(Err(p)) => viol.push(format!("commit of tree 2 panicked: {p}")),
+        Err(_) => viol.push("writer thread died".into()),
+    }
+    parity_db::verif::set_sink(None);
+    // the writer releases its reader lock; the log worker runs
+    h.unlock();
+    for _ in 0..6 {
+        match catch(|| db.process_commits()) {
+            Ok(Ok(_)) => {},
+            Ok(Err(e)) => viol.push(format!("process_commits: {e}")),
+            Err(p) => viol.push(format!("process_commits panicked: {p}")),
+        }
+    }
+    // tree 2 is live: root, the reused node 1, its child 2 and the new leaf 3 must read back
+    let r = with_reader(&db, &u.tkey(2), |src| -> Result<(), String> {
+        let s = src.ok_or("tree 2 (committed while the writer held the reader lock of tree 1) is absent")?;
+        let (d, ch) = s.root()?.ok_or("tree 2: root absent")?;
+        if d != u.root_data(2) || ch.len() != 2 || ch[0] != addr {
+            return Err("tree 2: root differs from what was supplied".into())
+        }
+        let (d1, ch1) = s.node(addr)?.ok_or("tree 2: the node reused from the locked tree is not readable (freed by the dereference that was queued in between)")?;
+        if d1 != u.node_data(1) || ch1.len() != 1 {
+            return Err("tree 2: the node reused from the locked tree no longer holds its data".into())
+        }
+        let (dd, _) = s.node(ch1[0])?.ok_or("tree 2: the child of the reused node is not readable")?;
+        if dd != u.node_data(2) {
+            return Err("tree 2: the child of the reused node no longer holds its data".into())
+        }
+        Ok(())
+    });
+    match r {
+        Ok(Ok(())) => {},
+        Ok(Err(e)) | Err(e) => viol.push(e),
+    }
+    match db.get_num_column_value_entries(0) {
+        Ok(n) if n != 4 => viol.push(format!("column holds {n} entries, 4 expected (tree 2: root, reused node, its child, new leaf)")),
+        _ => {},
+    }
+    let _ = std::fs::remove_dir_all(&dir);
+    (reached, viol)
+}
+
 pub fn cmd_scenario(args: &HashMap<String, String>) -> i32 {
     use crate::workers::Gate;
     use std::time::Duration;
     let which = args.get("which").map(|s| s.as_str()).unwrap_or("F18");
+    if which == "F20" {
+        let v = Variant::parse(args.get("variant").map(|s| s.as_str()).unwrap_or(""));
+        let u = Univ { seed: 5, v };
+        let (reached, viol) = scenario_f20(&u);
+        println!("{}", json!({"which": which, "reached": reached, "violations": viol}));
+        use std::io::Write;
+        let _ = std::io::stdout().flush();
+        std::process::exit(0);
+    }
     let v = Variant::parse(args.get("variant").map(|s| s.as_str()).unwrap_or(""));
     let u = Univ { seed: 5, v };
     let root = scratch_root();
@@ -1574,5 +1687,522 @@ pub fn cmd_record(args: &HashMap<String, String>) -> i32 {
     }
     println!("{}", json!({"events": out.len(), "problems": problems, "crashes": ncrash, "restarts": nrestart, "defers": ndefer,
                           "trees_with_shared_nodes": nshared, "ids": m.next_id - 1, "commits": m.next_cid - 1, "nt": nt}));
+    0
+}
+
+// ---------------------------------------------------------------------------
+// free-running threads (real background workers): writer, pruner, readers; the recorded history is
+// validated by TLC against spec/TraceMultiTreeLive.tla
+
+struct LiveShared {
+    events: Mutex<Vec<J>>,
+    /// client view and queue, maintained inside the hook sink (under the locks parity-db holds there)
+    mirror: Mutex<Mirror>,
+    inflight: Mutex<Option<(u64, MOp)>>,
+    bind: Mutex<Binding>,
+    /// keys some harness thread is working with (at most one reader lock per tree at a time)
+    leases: Mutex<HashSet<u64>>,
+    stop: std::sync::atomic::AtomicBool,
+    problems: Mutex<Vec<String>>,
+}
+
+thread_local! {
+    static LIVE_TX: std::cell::RefCell<Option<(J, MOp, u64)>> = std::cell::RefCell::new(None);
+}
+
+impl LiveShared {
+    fn push(&self, e: J) {
+        self.events.lock().unwrap().push(e);
+    }
+    fn lease(&self, k: u64) -> bool {
+        self.leases.lock().unwrap().insert(k)
+    }
+    fn release(&self, k: u64) {
+        self.leases.lock().unwrap().remove(&k);
+    }
+}
+
+/// lock tree k on the calling thread (LockReq / LockAck / Read / Unlock events); `f` runs under the lock
+/// with the root children (addresses) and may commit.  Returns false when the tree was not there.
+fn live_locked<B: FnOnce(&dyn Source, &[u64]), F: FnOnce(&dyn Source, &[u64])>(sh: &LiveShared, db: &Db, u: &Univ, k: u64, root_cids: &Mutex<Vec<(u64, u64, u64)>>, before: B, f: F) -> Result<bool, String> {
+    sh.push(json!({"e": "LockReq", "k": k, "t": tid()}));
+    let tree = db.get_tree(0, &u.tkey(k)).map_err(|e| e.to_string())?;
+    let tree = match tree {
+        None => {
+            sh.push(json!({"e": "LockAck", "k": k, "live": false, "t": tid()}));
+            return Ok(false)
+        },
+        Some(t) => t,
+    };
+    let guard = tree.read();
+    let src = Local(&**guard);
+    let (data, ch) = match src.root()? {
+        None => {
+            // the lock is held, but on a tree that is gone: nothing to read; for the model this
+            // reader never locked anything
+            drop(guard);
+            sh.push(json!({"e": "LockAck", "k": k, "live": false, "t": tid()}));
+            return Ok(false)
+        },
+        Some(x) => x,
+    };
+    // (the writer learns the addresses of its new nodes here, before anything is reported in ids)
+    before(&src, &ch);
+    let ids = |addrs: &[u64]| -> Vec<i64> {
+        let b = sh.bind.lock().unwrap();
+        addrs.iter().map(|a| b.addr2id.get(a).copied().unwrap_or(0) as i64).collect()
+    };
+    let cid = root_cids.lock().unwrap().iter().rev().find(|c| c.0 == k && u.root_data(c.2) == data).map(|c| c.1 as i64).unwrap_or(-1);
+    sh.push(json!({"e": "LockAck", "k": k, "live": true, "data": cid, "kids": ids(&ch), "t": tid()}));
+    // read the whole tree
+    let mut nodes: Vec<J> = Vec::new();
+    let mut seen: HashSet<u64> = HashSet::new();
+    let mut stack: Vec<u64> = ch.clone();
+    while let Some(a) = stack.pop() {
+        if !seen.insert(a) {
+            continue
+        }
+        let id = sh.bind.lock().unwrap().addr2id.get(&a).copied().unwrap_or(0);
+        match src.node(a)? {
+            None => nodes.push(json!({"id": -(id as i64) - 1000000, "kids": []})),
+            Some((d, c)) => {
+                let ok = id != 0 && d == u.node_data(id);
+                nodes.push(json!({"id": if ok { id as i64 } else { -(id as i64) }, "kids": ids(&c)}));
+                stack.extend(c.iter());
+            },
+        }
+    }
+    sh.push(json!({"e": "Read", "k": k, "data": cid, "kids": ids(&ch), "nodes": nodes, "t": tid()}));
+    f(&src, &ch);
+    // the lock is really released somewhere between these two events
+    sh.push(json!({"e": "UnlockReq", "k": k, "t": tid()}));
+    drop(guard);
+    sh.push(json!({"e": "Unlock", "k": k, "t": tid()}));
+    Ok(true)
+}
+
+/// `pdbh mtree-live --out F --trees N --seed S --variant V`
+pub fn cmd_live(args: &HashMap<String, String>) -> i32 {
+    use rand::{Rng, SeedableRng};
+    use std::io::Write;
+    use std::sync::atomic::Ordering;
+    let ntrees: usize = args.get("trees").and_then(|s| s.parse().ok()).unwrap_or(60);
+    let seed: u64 = args.get("seed").and_then(|s| s.parse().ok()).unwrap_or(1);
+    let nt: u64 = args.get("nt").and_then(|s| s.parse().ok()).unwrap_or(6);
+    let v = Variant::parse(args.get("variant").map(|s| s.as_str()).unwrap_or(""));
+    let u = Arc::new(Univ { seed: mix(seed, 77), v: Variant { pads: false, big: false, ..v.clone() } });
+    let root = scratch_root();
+    let dir = fresh_dir(&root, "mtlive");
+    let mut o = mt_options(&dir, &u.v, true);
+    o.always_flush = false;
+    let db = match Db::open_or_create(&o) {
+        Ok(d) => Arc::new(d),
+        Err(e) => {
+            println!("{}", json!({"events": 0, "problems": [format!("open: {e}")]}));
+            return 1
+        },
+    };
+    let sh = Arc::new(LiveShared {
+        events: Mutex::new(Vec::new()),
+        mirror: Mutex::new(Mirror { ideal: HashMap::new(), applied: HashMap::new(), node_kids: HashMap::new(), queue: Vec::new(), locked: HashMap::new(), next_id: 1, next_cid: 1 }),
+        inflight: Mutex::new(None),
+        bind: Mutex::new(Binding::default()),
+        leases: Mutex::new(HashSet::new()),
+        stop: std::sync::atomic::AtomicBool::new(false),
+        problems: Mutex::new(Vec::new()),
+    });
+    // (tree key, commit id, token the root data was derived from)
+    let root_cids: Arc<Mutex<Vec<(u64, u64, u64)>>> = Arc::new(Mutex::new(Vec::new()));
+    // the sink: hook events in emission order, mirror of the queue
+    {
+        let sh2 = sh.clone();
+        let rc2 = root_cids.clone();
+        parity_db::verif::set_sink(Some(Arc::new(move |n: &'static str, a: &[u64]| {
+            match n {
+                "CommitLin" => {
+                    let cid = a[0];
+                    let (tj, op, token) = LIVE_TX.with(|p| p.borrow_mut().take()).unwrap_or((json!({"t": "none"}), MOp::None, 0));
+                    let mut m = sh2.mirror.lock().unwrap();
+                    m.next_cid = cid + 1;
+                    if let MOp::Ins(k, _) = &op {
+                        rc2.lock().unwrap().push((*k, cid, token));
+                    }
+                    Mirror::apply(&mut m.ideal, &op, false);
+                    m.queue.push((cid, op));
+                    sh2.push(json!({"e": "Commit", "cid": cid, "tree": tj, "set": {"x": 0, "v": 0}, "t": tid()}));
+                },
+                "Pop" => {
+                    let mut m = sh2.mirror.lock().unwrap();
+                    if let Some(pos) = m.queue.iter().position(|q| q.0 == a[0]) {
+                        let q = m.queue.remove(pos);
+                        *sh2.inflight.lock().unwrap() = Some(q);
+                    }
+                    sh2.push(json!({"e": "Pop", "cid": a[0], "t": tid()}));
+                },
+                "BeginRecord" => {
+                    sh2.push(json!({"e": "BeginRecord", "t": tid()}));
+                },
+                "Defer" => {
+                    // the commit just popped goes back (under a new id unless it is alone in the queue)
+                    sh2.push(json!({"e": "Defer", "cid": a[0], "ncid": a[1], "t": tid()}));
+                    let q = sh2.inflight.lock().unwrap().take();
+                    let mut m = sh2.mirror.lock().unwrap();
+                    if let Some((_c, op)) = q {
+                        if a[1] == a[0] {
+                            m.queue.insert(0, (a[1], op));
+                        } else {
+                            m.queue.push((a[1], op));
+                            m.next_cid = a[1] + 1;
+                        }
+                    }
+                },
+                "EndRecord" => {
+                    let q = sh2.inflight.lock().unwrap().take();
+                    if let Some((_c, op)) = q {
+                        let mut m = sh2.mirror.lock().unwrap();
+                        Mirror::apply(&mut m.applied, &op, false);
+                    }
+                    sh2.push(json!({"e": "EndRecord", "t": tid()}));
+                },
+                _ => {},
+            }
+        })));
+    }
+    let mut handles = Vec::new();
+    // writer
+    {
+        let (sh, db, u, rc) = (sh.clone(), db.clone(), u.clone(), root_cids.clone());
+        handles.push(std::thread::spawn(move || {
+            let mut rng = rand::rngs::SmallRng::seed_from_u64(seed ^ 0xaa);
+            let mut prev: Option<u64> = None;
+            let mut made = 0;
+            let mut spins = 0;
+            while made < ntrees && !sh.stop.load(Ordering::SeqCst) && spins < 200000 {
+                spins += 1;
+                // a key that is free for the client, not being dereferenced and not in use by a reader
+                let k = {
+                    let m = sh.mirror.lock().unwrap();
+                    let pend: HashSet<u64> = m.queue.iter().filter_map(|(_, o)| if let MOp::Deref(k) = o { Some(*k) } else { None }).collect();
+                    let infl = sh.inflight.lock().unwrap().as_ref().and_then(|q| if let MOp::Deref(k) = &q.1 { Some(*k) } else { None });
+                    (1..=nt).find(|k| !m.ideal.contains_key(k) && m.visible_root(*k).is_none() && !pend.contains(k) && infl != Some(*k))
+                };
+                let k = match k {
+                    Some(k) if sh.lease(k) => k,
+                    _ => {
+                        std::thread::sleep(std::time::Duration::from_micros(200));
+                        continue
+                    },
+                };
+                // read the previous tree under its lock and reuse some of its nodes
+                let mut committed: Option<Vec<u64>> = None;
+                let mut commit = |refs: Vec<(u64, u64)>| {
+                    // refs: (model id, address) of nodes of the locked tree
+                    let mut next;
+                    let first;
+                    let mut nk: HashMap<u64, Vec<u64>> = HashMap::new();
+                    {
+                        let m = sh.mirror.lock().unwrap();
+                        next = m.next_id;
+                        first = next;
+                    }
+                    let ref_ids: Vec<u64> = refs.iter().map(|r| r.0).collect();
+                    let mut budget = 8;
+                    let (shape, kids) = rand_shape(&mut rng, &ref_ids, 0, &mut next, &mut nk, &mut budget);
+                    {
+                        let mut m = sh.mirror.lock().unwrap();
+                        m.next_id = next;
+                        for (id, ks) in nk.iter() {
+                            m.node_kids.insert(*id, ks.clone());
+                        }
+                    }
+                    let amap: HashMap<u64, u64> = refs.iter().cloned().collect();
+                    let mut b = Binding::default();
+                    for (id, a) in amap.iter() {
+                        b.id2addr.insert(*id, *a);
+                    }
+                    let mut nx = first;
+                    let children = match build_children(&u, &shape, &mut nx, &b) {
+                        Ok(c) => c,
+                        Err(e) => {
+                            sh.problems.lock().unwrap().push(e);
+                            return
+                        },
+                    };
+                    let new: Vec<J> = if next > first { vec![json!({"id": first})] } else { vec![] };
+                    let tj = json!({"t": "ins", "k": k, "new": new, "sh": shape});
+                    // the commit id is known only inside the call (the pruner commits too): the root data is
+                    // derived from a token of the writer, the sink records which commit id it got
+                    let token = 1_000_000 + first * 16 + k;
+                    LIVE_TX.with(|p| *p.borrow_mut() = Some((tj, MOp::Ins(k, kids.clone()), token)));
+                    let r = db.commit_changes(vec![(0u8, Operation::InsertTree(u.tkey(k), NewNode { data: u.root_data(token), children }))]);
+                    match r {
+                        Ok(()) => committed = Some(kids),
+                        Err(e) => sh.problems.lock().unwrap().push(format!("commit of a new tree failed: {e}")),
+                    }
+                };
+                let mut did = false;
+                if let Some(p) = prev {
+                    if sh.lease(p) {
+                        let r = live_locked(&sh, &db, &u, p, &rc, |_s, _c| {}, |src, ch| {
+                            // every node of the locked tree may be reused
+                            let mut refs = Vec::new();
+                            let mut stack: Vec<u64> = ch.to_vec();
+                            let mut seen = HashSet::new();
+                            while let Some(a) = stack.pop() {
+                                if !seen.insert(a) {
+                                    continue
+                                }
+                                if let Some(id) = sh.bind.lock().unwrap().addr2id.get(&a).copied() {
+                                    refs.push((id, a));
+                                }
+                                if let Ok(Some((_, c))) = src.node(a) {
+                                    stack.extend(c.iter());
+                                }
+                            }
+                            commit(refs);
+                        });
+                        sh.release(p);
+                        match r {
+                            Ok(true) => did = true,
+                            Ok(false) => {},
+                            Err(e) => sh.problems.lock().unwrap().push(e),
+                        }
+                    }
+                }
+                if !did {
+                    commit(vec![]);
+                }
+                // learn the addresses of the new nodes (the key stays leased: no reader sees unbound nodes)
+                let want_kids: Option<Vec<u64>> = committed;
+                if let Some(kids) = want_kids {
+                    // (no harness lock is held across a database call: the hook sink takes them inside
+                    // parity-db's critical sections)
+                    let node_kids: HashMap<u64, Vec<u64>> = sh.mirror.lock().unwrap().node_kids.clone();
+                    let r = live_locked(&sh, &db, &u, k, &rc, |src, ch| {
+                        let mut stack: Vec<(u64, u64)> = ch.iter().cloned().zip(kids.iter().cloned()).collect();
+                        if ch.len() != kids.len() {
+                            sh.problems.lock().unwrap().push(format!("tree {k}: {} root children read back, {} supplied", ch.len(), kids.len()));
+                            return
+                        }
+                        while let Some((a, id)) = stack.pop() {
+                            {
+                                let mut b = sh.bind.lock().unwrap();
+                                if b.id2addr.contains_key(&id) {
+                                    continue
+                                }
+                                if let Some(old) = b.addr2id.insert(a, id) {
+                                    b.id2addr.remove(&old);
+                                }
+                                b.id2addr.insert(id, a);
+                            }
+                            if let Ok(Some((_, c))) = src.node(a) {
+                                let ks = node_kids.get(&id).cloned().unwrap_or_default();
+                                if c.len() == ks.len() {
+                                    stack.extend(c.iter().cloned().zip(ks.iter().cloned()));
+                                } else {
+                                    sh.problems.lock().unwrap().push(format!("node {id}: {} children read back, {} supplied", c.len(), ks.len()));
+                                }
+                            }
+                        }
+                    }, |_s, _c| {});
+                    if let Err(e) = r {
+                        sh.problems.lock().unwrap().push(e);
+                    }
+                }
+                sh.release(k);
+                prev = Some(k);
+                made += 1;
+            }
+        }));
+    }
+    // pruner
+    {
+        let (sh, db, u) = (sh.clone(), db.clone(), u.clone());
+        handles.push(std::thread::spawn(move || {
+            let mut rng = rand::rngs::SmallRng::seed_from_u64(seed ^ 0xbb);
+            while !sh.stop.load(Ordering::SeqCst) {
+                std::thread::sleep(std::time::Duration::from_micros(300 + rng.gen_range(0..700)));
+                let k = {
+                    let m = sh.mirror.lock().unwrap();
+                    let live: Vec<u64> = m.ideal.keys().copied().collect();
+                    if live.len() < 2 {
+                        continue
+                    }
+                    live[rng.gen_range(0..live.len())]
+                };
+                // (not while the writer is still learning the addresses of this tree)
+                if !sh.lease(k) {
+                    continue
+                }
+                let still = sh.mirror.lock().unwrap().ideal.contains_key(&k);
+                if still {
+                    LIVE_TX.with(|p| *p.borrow_mut() = Some((json!({"t": "deref", "k": k}), MOp::Deref(k), 0)));
+                    if let Err(e) = db.commit_changes(vec![(0u8, Operation::DereferenceTree(u.tkey(k)))]) {
+                        LIVE_TX.with(|p| *p.borrow_mut() = None);
+                        sh.problems.lock().unwrap().push(format!("dereference of live tree {k} failed: {e}"));
+                    }
+                }
+                sh.release(k);
+            }
+        }));
+    }
+    // readers
+    for r in 0..2u64 {
+        let (sh, db, u, rc) = (sh.clone(), db.clone(), u.clone(), root_cids.clone());
+        handles.push(std::thread::spawn(move || {
+            let mut rng = rand::rngs::SmallRng::seed_from_u64(seed ^ (0xcc + r));
+            while !sh.stop.load(Ordering::SeqCst) {
+                std::thread::sleep(std::time::Duration::from_micros(100 + rng.gen_range(0..400)));
+                let k = rng.gen_range(1..=nt);
+                if !sh.lease(k) {
+                    continue
+                }
+                let hold = rng.gen_range(0..800);
+                let res = live_locked(&sh, &db, &u, k, &rc, |_s, _c| {}, |_src, _ch| {
+                    std::thread::sleep(std::time::Duration::from_micros(hold));
+                });
+                sh.release(k);
+                if let Err(e) = res {
+                    sh.problems.lock().unwrap().push(format!("reader: {e}"));
+                }
+            }
+        }));
+    }
+    // the writer ends the run
+    let writer = handles.remove(0);
+    let _ = writer.join();
+    sh.stop.store(true, Ordering::SeqCst);
+    for h in handles {
+        let _ = h.join();
+    }
+    // let the workers finish
+    let start = std::time::Instant::now();
+    loop {
+        let (q, _o, dirty) = db.verif_pipeline_sizes();
+        let mq = sh.mirror.lock().unwrap().queue.len();
+        let infl = sh.inflight.lock().unwrap().is_some();
+        if q == 0 && mq == 0 && !infl && dirty == 0 {
+            break
+        }
+        if start.elapsed().as_secs() > 60 {
+            sh.problems.lock().unwrap().push(format!("pipeline did not drain within 60 s (queued {q}, dirty logs {dirty})"));
+            break
+        }
+        std::thread::sleep(std::time::Duration::from_millis(5));
+    }
+    std::thread::sleep(std::time::Duration::from_millis(50));
+    parity_db::verif::set_sink(None);
+    // close (drains and enacts everything) and reopen: the final projection is read from what was stored
+    let db = match Arc::try_unwrap(db) {
+        Ok(d) => {
+            if let Err(p) = catch(move || drop(d)) {
+                sh.problems.lock().unwrap().push(format!("panic in drop: {p}"));
+            }
+            match catch(|| Db::open(&mt_options(&dir, &u.v, false))) {
+                Ok(Ok(d)) => Arc::new(d),
+                Ok(Err(e)) => {
+                    println!("{}", json!({"events": 0, "problems": [format!("reopen: {e}")]}));
+                    return 1
+                },
+                Err(p) => {
+                    println!("{}", json!({"events": 0, "problems": [format!("reopen panicked: {p}")]}));
+                    return 1
+                },
+            }
+        },
+        Err(_) => {
+            println!("{}", json!({"events": 0, "problems": ["harness: database handle still shared at the end"]}));
+            return 1
+        },
+    };
+    // final projection
+    let fin = (|| -> Result<J, String> {
+        let m = sh.mirror.lock().unwrap();
+        let b = sh.bind.lock().unwrap();
+        let rc = root_cids.lock().unwrap();
+        let mut vis = Vec::new();
+        let mut nodes: Vec<J> = Vec::new();
+        let mut seen: HashSet<u64> = HashSet::new();
+        for k in 1..=nt {
+            let r = with_reader(&db, &u.tkey(k), |src| -> Result<J, String> {
+                let s = match src {
+                    None => return Ok(json!({"live": false, "data": 0, "kids": []})),
+                    Some(s) => s,
+                };
+                let (data, ch) = match s.root()? {
+                    None => return Ok(json!({"live": false, "data": 0, "kids": []})),
+                    Some(x) => x,
+                };
+                let cid = rc.iter().rev().find(|c| c.0 == k && u.root_data(c.2) == data).map(|c| c.1 as i64).unwrap_or(-1);
+                let mut stack: Vec<u64> = ch.clone();
+                while let Some(a) = stack.pop() {
+                    let id = b.addr2id.get(&a).copied().unwrap_or(0);
+                    if id == 0 || !seen.insert(id) {
+                        continue
+                    }
+                    if let Some((d, c)) = s.node(a)? {
+                        let ok = d == u.node_data(id);
+                        nodes.push(json!({"id": if ok { id as i64 } else { -(id as i64) }, "kids": c.iter().map(|x| b.addr2id.get(x).copied().unwrap_or(0)).collect::<Vec<_>>()}));
+                        stack.extend(c.iter());
+                    } else {
+                        nodes.push(json!({"id": -(id as i64), "kids": []}));
+                    }
+                }
+                Ok(json!({"live": true, "data": cid, "kids": ch.iter().map(|x| b.addr2id.get(x).copied().unwrap_or(0)).collect::<Vec<_>>()}))
+            })?;
+            vis.push(r?);
+        }
+        let entries = db.get_num_column_value_entries(0).map(|n| n as i64).unwrap_or(-1);
+        // stored counts of the live nodes
+        let d = db.verif_dump(0).map_err(|e| format!("dump: {e}"))?;
+        let mut counts: HashMap<u64, u64> = HashMap::new();
+        for (_bits, entries) in d.ref_counts.iter() {
+            for (a, c) in entries {
+                counts.entry(*a).or_insert(*c);
+            }
+        }
+        let mut live: HashSet<u64> = HashSet::new();
+        for (_k, (_rc, kids)) in m.applied.iter() {
+            m.reach(kids, &mut live);
+        }
+        let mut rcj = Vec::new();
+        let mut stray = 0;
+        let mut live_addrs: HashSet<u64> = HashSet::new();
+        for id in live.iter() {
+            if let Some(a) = b.id2addr.get(id) {
+                live_addrs.insert(*a);
+                rcj.push(json!({"id": id, "count": counts.get(a).copied().unwrap_or(1)}));
+            }
+        }
+        for a in counts.keys() {
+            if !live_addrs.contains(a) {
+                stray += 1;
+            }
+        }
+        Ok(json!({"e": "Final", "vis": vis, "nodes": nodes, "entries": entries, "rc": rcj, "stray": stray, "orphans": -1}))
+    })();
+    match fin {
+        Ok(f) => sh.push(f),
+        Err(e) => sh.problems.lock().unwrap().push(format!("final read: {e}")),
+    }
+    let evs = sh.events.lock().unwrap().clone();
+    let problems = sh.problems.lock().unwrap().clone();
+    let m = sh.mirror.lock().unwrap();
+    let ndefer = evs.iter().filter(|e| e["e"] == "Defer").count();
+    let nmiss = evs.iter().filter(|e| e["e"] == "LockAck" && e["live"] == false).count();
+    let nlocks = evs.iter().filter(|e| e["e"] == "LockAck" && e["live"] == true).count();
+    let summary = json!({"events": evs.len(), "problems": problems, "commits": m.next_cid - 1, "ids": m.next_id - 1, "defers": ndefer,
+                         "locks": nlocks, "lock_misses": nmiss, "nt": nt});
+    drop(m);
+    let mut f = std::io::BufWriter::new(std::fs::File::create(&args["out"]).unwrap());
+    for e in &evs {
+        writeln!(f, "{e}").unwrap();
+    }
+    drop(f);
+    println!("{summary}");
+    let _ = std::io::stdout().flush();
+    let dbx = Arc::try_unwrap(db).ok();
+    let _ = catch(move || drop(dbx));
+    let _ = std::fs::remove_dir_all(&dir);
     0
 }
